@@ -444,6 +444,46 @@ pub fn run(rep: &'static Report) {
     rep.extra("roundtrip_names", json!(names.len()));
     rep.sample(json!({"kind":"roundtrip","name":"a=\u{e9}","expect":"serialize_key -> Keyring::new -> get_key returns the same name and keys"}));
 
+    // CLI level: what `kestrel key generate` writes for a typed name must read back under exactly the written name
+    {
+        use crate::proc::{self, Cmd, Scratch};
+        let typed: Vec<&str> = vec!["joe", "  joe", "joe  ", "\u{a0}joe", "\u{3000}wide", " two words ", "a=b", "=lead", "trail=", "#hash", "[Key]", "Name = x", "\u{e9}t\u{e9}", "x\ty", "\tlead-tab"];
+        typed.par_iter().for_each(|t| {
+            rep.eval(1);
+            rep.nontrivial(format!("cli-name-{}", t).as_bytes());
+            let attempt = || -> Result<(), String> {
+                let sc = Scratch::new();
+                let out = proc::run(&Cmd::new(&["key", "generate", "-o", "kr.txt", "--env-pass"]).env("KESTREL_PASSWORD", "pw").stdin(format!("{}\n", t).as_bytes()), &sc.0);
+                out.well_behaved()?;
+                let file = sc.read("kr.txt");
+                if !out.ok() {
+                    // refused names (e.g. containing a tab) must not leave a file behind
+                    if file.is_some() {
+                        return Err(format!("key generate refused the name {:?} but wrote a file", t));
+                    }
+                    return Ok(());
+                }
+                let text = String::from_utf8(file.ok_or("no keyring written")?).map_err(|_| "keyring not UTF-8".to_string())?;
+                let written: Vec<&str> = text.lines().filter_map(|l| l.strip_prefix("Name = ")).collect();
+                if written.len() != 1 {
+                    return Err(format!("expected one Name line, file is {:?}", text));
+                }
+                match guarded(|| Keyring::new(&text).map(|k| k.get_key(written[0]).map(|e| e.name.clone()))) {
+                    Ok(Ok(Some(n))) if n == written[0] => Ok(()),
+                    Ok(Ok(other)) => Err(format!("typed {:?}: the tool wrote the name {:?} but the keyring reads back {:?} under that name (names are not read back as written)", t, written[0], other)),
+                    Ok(Err(e)) => Err(format!("typed {:?}: the keyring the tool wrote does not parse: {}", t, e)),
+                    Err(m) => Err(format!("parser panicked: {}", m)),
+                }
+            };
+            if attempt().is_err() {
+                if let Err(e) = attempt() {
+                    rep.violation("cli/generated-name-does-not-read-back", json!({"kind":"cli-name","typed":t}), e);
+                }
+            }
+        });
+        rep.extra("cli_generated_names", json!(typed.len()));
+    }
+
     // public keys: checksum perturbations and single-character substitutions
     let mut strs: Vec<String> = vec![];
     for id in ids.iter().take(3) {
@@ -516,6 +556,10 @@ pub fn replay(rep: &'static Report, case: &Value) {
             roundtrip(rep, case["name"].as_str().unwrap(), case["pk"].as_str().unwrap(), case["sk"].as_str().unwrap(), other);
         }
         "pubkey" => pubkey_case(rep, case["s"].as_str().unwrap()),
+        "cli-name" => {
+            println!("  re-running C17 (CLI name cases are part of it)");
+            run(rep);
+        }
         k => crate::report::machinery(&format!("unknown replay kind {}", k)),
     }
 }
